@@ -51,6 +51,8 @@ pub const TOK_B: u64 = 8;
 pub const ERR_A: u64 = 2;
 pub const ERR_B: u64 = 8;
 
+pub const TIME_LIMIT_S: f64 = 10.0;
+
 pub fn c01_check(src: &str, oc: &Outcome, local: Option<&mut Local>, out: &mut Vec<String>) {
     match oc {
         Outcome::Panic(m) => out.push(format!("panic:{m}")),
@@ -96,9 +98,18 @@ pub fn c01_check(src: &str, oc: &Outcome, local: Option<&mut Local>, out: &mut V
 /// Run the oracle of `prop` on one input; returns signatures of failed clauses.
 /// `None` = the property is not observable on this input (no result returned: C01's business).
 pub fn check_one(prop: &str, src: &str, local: Option<&mut Local>) -> Option<(Vec<String>, Option<LexResult>)> {
+    let t0 = std::time::Instant::now();
     let oc = run_lexer(src);
+    let secs = t0.elapsed().as_secs_f64();
     let mut out = Vec::new();
     if prop == "C01" {
+        // "the amount of work stays linear": scanner-internal loops are invisible to the iteration
+        // counter, so for long inputs the wall time of the call is bounded as well. The bound is
+        // two orders of magnitude above what the slowest input of the scale family needs on a
+        // loaded machine (< 0.1 s per 100 KB); it is a measurement, not an enumeration.
+        if src.len() >= 16_384 && secs > TIME_LIMIT_S {
+            out.push(format!("nonlinear.time:more-than-{TIME_LIMIT_S}s-for-less-than-1MB"));
+        }
         c01_check(src, &oc, local, &mut out);
         return Some((out, match oc { Outcome::Ok(r) => Some(r), _ => None }));
     }
@@ -381,6 +392,15 @@ pub fn scale_inputs(tier: Tier) -> Vec<(String, usize)> {
     for w in SCALE_WORDS {
         for k in SMALL_KS {
             v.push(((*w).to_string(), *k));
+        }
+    }
+    // a long run of one special character inside the text of every scanner (after one ordinary
+    // character): a look-ahead that rescans the run at every step makes the call quadratic
+    for (p, s) in crate::templates::SCANNER_TEMPLATES {
+        for c in ["&", "%", ".", "*", "/", "-", "'", "\"", "(", " ", "\n", "="] {
+            let nests = c == "(" || p.ends_with('(');
+            let k = if nests && cfg!(debug_assertions) { 4_100 } else { 300_000 };
+            v.push((format!("{p}a\u{2}{c}\u{2}{s}"), k));
         }
     }
     for a in spaces::s9_core() {
